@@ -106,3 +106,50 @@ func c06Extra(c *Check) {
 	}
 	c.Floor("C06.R2b:pool-users", n, 1)
 }
+
+// C06 extra rule (added after an independent seeded change was missed): the
+// client's stream wrapper must end the upload gracefully. Bytes the application
+// wrote before Close() are only guaranteed to arrive when Close() sends FIN:
+// every path through (*tcpConn).Close calls Close() on the wrapped stream and
+// none resets the send side (CancelWrite), which lets quic-go drop data that is
+// still queued -- also for a connection whose response has not been read yet
+// (fast-open, write-only clients).
+func c06GracefulClose(c *Check) {
+	p := c.P
+	const rule = "C06.R9 the client stream wrapper's Close() always closes the wrapped stream gracefully (FIN) and never resets its send side: bytes written before Close() are not discarded"
+	closeFn := p.Fn(pClient, "(*tcpConn).Close")
+	if closeFn == nil {
+		c.Unres("core/client (*tcpConn).Close")
+		return
+	}
+	c.Saw(fnName(closeFn))
+	isStreamCall := func(in ssa.Instruction, name string) bool {
+		ci, ok := in.(ssa.CallInstruction)
+		if !ok {
+			return false
+		}
+		recv, ok := methodCallNamed(ci, name)
+		if !ok {
+			return false
+		}
+		u, isLoad := resolve(recv).(*ssa.UnOp)
+		if !isLoad {
+			return false
+		}
+		_, isFld := u.X.(*ssa.FieldAddr)
+		return isFld
+	}
+	exits := exitsReachableAvoiding(closeFn, nil, func(in ssa.Instruction) bool { return isStreamCall(in, "Close") })
+	pos := p.Pos(closeFn.Pos())
+	if len(exits) > 0 {
+		pos = p.InstrPos(exits[0])
+	}
+	c.Req(len(exits) == 0, "C06.R9:close-sends-fin", rule, pos, "a path through (*tcpConn).Close returns without closing the wrapped stream: the peer never sees the end of the upload")
+	reset := ""
+	allInstrs(closeFn, func(in ssa.Instruction) {
+		if isStreamCall(in, "CancelWrite") {
+			reset = p.InstrPos(in)
+		}
+	})
+	c.Req(reset == "", "C06.R9:close-never-resets-send-side", rule, reset, "(*tcpConn).Close resets the send side of the stream (CancelWrite): data the application wrote just before closing is dropped instead of delivered")
+}
